@@ -84,6 +84,7 @@ type Case struct {
 	Flaky  []int     `json:"flaky"`            // via 6: segment ids whose Data() fails; a trailing -1 adds a phantom segment
 	Chunks []int     `json:"chunks"`
 	Reuse  bool      `json:"reuse"`
+	Prior  int       `json:"prior,omitempty"` // via 4/5: words of a sentinel-filled message decoded first on the same Decoder
 }
 
 // flakyArena delivers errors for some segments and can announce more segments than it has.
@@ -184,7 +185,16 @@ func (c *Case) open() (*opened, error) {
 		}
 		o.msg = m
 	case 4, 5:
-		r := &hx.ChunkReader{Data: append([]byte(nil), c.Stream...), Chunks: c.Chunks}
+		data := append([]byte(nil), c.Stream...)
+		if c.Prior > 0 {
+			// an earlier, larger message of the same stream: whatever the Decoder keeps of it is not part of this message
+			prior := ref.Frame([][]byte{bytes.Repeat([]byte{0xA5}, 8*c.Prior)})
+			if c.Via == 5 {
+				prior = ref.Pack(prior, nil)
+			}
+			data = append(prior, data...)
+		}
+		r := &hx.ChunkReader{Data: data, Chunks: c.Chunks}
 		var d *capnp.Decoder
 		if c.Via == 4 {
 			d = capnp.NewDecoder(r)
@@ -194,6 +204,11 @@ func (c *Case) open() (*opened, error) {
 		if c.Reuse {
 			d.ReuseBuffer()
 		}
+		if c.Prior > 0 {
+			if _, err := d.Decode(); err != nil {
+				return nil, fmt.Errorf("harness: prior message rejected: %v", err)
+			}
+		}
 		m, err := d.Decode()
 		if err != nil {
 			return nil, err
@@ -201,6 +216,18 @@ func (c *Case) open() (*opened, error) {
 		o.msg = m
 	}
 	setup(o.msg)
+	// the segments of a framed message are what the frame says, byte for byte: an independent unframer must see the same
+	if want, ok := c.framedSegments(); ok && int64(len(want)) == o.msg.NumSegments() {
+		for i := range want {
+			sg, err := o.msg.Segment(capnp.SegmentID(i))
+			if err != nil {
+				break
+			}
+			if got := sg.Data(); !bytes.Equal(got, want[i]) {
+				return nil, pbt.Fail("segment-differs-from-frame", "via %d (reuse=%v prior=%d): segment %d as the library presents it has %d bytes, the frame holds %d (first difference at byte %d): reads can reach bytes that are not part of the message", c.Via, c.Reuse, c.Prior, i, len(got), len(want[i]), firstDiff(got, want[i]))
+			}
+		}
+	}
 	// recover the segments as the library sees them
 	n := o.msg.NumSegments()
 	if n > 0 && n <= 1024 {
@@ -215,6 +242,38 @@ func (c *Case) open() (*opened, error) {
 		}
 	}
 	return o, nil
+}
+
+// framedSegments parses the case's byte stream with the independent unframer / unpacker.
+func (c *Case) framedSegments() ([][]byte, bool) {
+	if c.Via < 2 || c.Via > 5 {
+		return nil, false
+	}
+	b := []byte(c.Stream)
+	if c.Via == 3 || c.Via == 5 {
+		u, err := ref.Unpack(b)
+		if err != nil {
+			return nil, false
+		}
+		b = u
+	}
+	segs, _, err := ref.Unframe(b)
+	if err != nil {
+		return nil, false
+	}
+	return segs, true
+}
+
+func firstDiff(a, b []byte) int {
+	for i := 0; i < len(a) && i < len(b); i++ {
+		if a[i] != b[i] {
+			return i
+		}
+	}
+	if len(a) < len(b) {
+		return len(a)
+	}
+	return len(b)
 }
 
 // inSegs reports whether b lies inside one of the supplied segments (by address).
@@ -492,6 +551,9 @@ func run(c Case) (pbt.Result, error) {
 	if p != nil {
 		return res, pbt.Fail("panic/open/"+panicSite(stack), "panic while opening (via %d): %v\n%s", c.Via, p, stack)
 	}
+	if v, ok := err.(*pbt.Violation); ok {
+		return res, v
+	}
 	if err != nil {
 		res.Class("open-error:" + walk.NormErr(err))
 		return res, nil
@@ -621,6 +683,19 @@ func zSegments(t *rapid.T) [][]byte {
 	return segs
 }
 
+// shave makes (in 1 case of 4) one segment end 1-7 bytes short of a word boundary: arenas hand the library whatever
+// byte strings the caller has; an object whose last word is only partly present may still be in bounds (a byte list
+// that does not use its padding) or not.
+func shave(t *rapid.T, segs [][]byte) {
+	if rapid.IntRange(0, 3).Draw(t, "shave") != 0 {
+		return
+	}
+	i := rapid.IntRange(0, len(segs)-1).Draw(t, "shaveseg")
+	if len(segs[i]) >= 8 {
+		segs[i] = segs[i][:len(segs[i])-rapid.IntRange(1, 7).Draw(t, "shaven")]
+	}
+}
+
 func genCase(t *rapid.T) Case {
 	var c Case
 	genConfig(t, &c)
@@ -675,6 +750,7 @@ func genCase(t *rapid.T) Case {
 				segs[i] = segs[i][:8*rapid.IntRange(1, n-1).Draw(t, "tlen")]
 			}
 		}
+		shave(t, segs)
 		c.Segs = sparse(segs)
 		c.Via = rapid.SampledFrom([]int{0, 0, 0, 1, 6}).Draw(t, "via")
 	case 6, 7: // mutated reference-encoded tree
@@ -686,6 +762,7 @@ func genCase(t *rapid.T) Case {
 			segs = L.Segs
 		}
 		gen.Apply(segs, gen.MutateWords(t, segs, 4))
+		shave(t, segs)
 		c.Segs = sparse(segs)
 		c.Via = rapid.SampledFrom([]int{0, 0, 0, 1, 6}).Draw(t, "via")
 	case 8: // byte streams through the framing / packing layers
@@ -717,6 +794,9 @@ func genCase(t *rapid.T) Case {
 			c.Chunks = append(c.Chunks, rapid.SampledFrom([]int{1, 7, 8, 9, 64}).Draw(t, "chunk"))
 		}
 		c.Reuse = rapid.Bool().Draw(t, "reuse")
+		if c.Via >= 4 {
+			c.Prior = rapid.SampledFrom([]int{0, 0, 1, 40, 1024}).Draw(t, "prior")
+		}
 	case 9:
 		if rapid.Bool().Draw(t, "notbig") {
 			return genCase(t)
@@ -772,7 +852,7 @@ func genCase(t *rapid.T) Case {
 
 var _ = pbt.Register(pbt.Spec[Case]{
 	Property: "C01", Name: "hostile-read",
-	Rule:  "hostile messages: (grammar) 1-4 segments of words drawn from a pointer grammar with boundary targets/sizes/counts and landing-pad/tag shapes; (mutated-Z) valid aircraftlib.Z messages with 1-3 words overwritten, the union discriminant re-pointed, segments truncated; (mutated-tree) reference-encoded random trees (far/double-far) with 1-4 words overwritten; (stream) raw/mutated/cut byte streams through Unmarshal, UnmarshalPacked, Decoder, PackedDecoder (+ReuseBuffer, chunked readers); (big) sparse 0.5-1 MiB segments with element counts around 2^22 bits / 2^29; x arenas (MultiSegment, SingleSegment, own flaky Arena whose Data fails or that announces a phantom segment) x TraverseLimit {64,1Ki,64Ki,default,2^40} x DepthLimit {1,2,3,default,64,1000} x capability table {nil, 1, 8 entries}. Every segment is carved with cap==len out of a canary buffer. Oracle: no panic in any accessor or consumer (walker over all accessors, Equal, Canonicalize, SetRoot/SetPtr deep copy, text.Marshal for 5 schemas, pogs.Extract for 2 Go types, generated accessors/String), every step returns within the watchdog, the lock-step reference decoder confirms every successful dereference lies inside its segment, returned Text/Data slices alias a supplied segment by address. Consumers whose per-element cost is high run when the budget is <=1MiB or the walk was small. Non-trivial: >=1 successful dereference and >=1 error in the same case.",
+	Rule:  "hostile messages: (grammar) 1-4 segments of words drawn from a pointer grammar with boundary targets/sizes/counts and landing-pad/tag shapes; (mutated-Z) valid aircraftlib.Z messages with 1-3 words overwritten, the union discriminant re-pointed, segments truncated (by words, or 1-7 bytes off the end so that the segment length is not a multiple of 8); (mutated-tree) reference-encoded random trees (far/double-far) with 1-4 words overwritten; (stream) raw/mutated/cut byte streams through Unmarshal, UnmarshalPacked, Decoder, PackedDecoder (+ReuseBuffer, chunked readers, a larger sentinel-filled message decoded first on the same Decoder); (big) sparse 0.5-1 MiB segments with element counts around 2^22 bits / 2^29; x arenas (MultiSegment, SingleSegment, own flaky Arena whose Data fails or that announces a phantom segment) x TraverseLimit {64,1Ki,64Ki,default,2^40} x DepthLimit {1,2,3,default,64,1000} x capability table {nil, 1, 8 entries}. Every segment is carved with cap==len out of a canary buffer. Oracle: the segments of a framed message are byte for byte what an independent unframer/unpacker finds in the stream; no panic in any accessor or consumer (walker over all accessors, Equal, Canonicalize, SetRoot/SetPtr deep copy, text.Marshal for 5 schemas, pogs.Extract for 2 Go types, generated accessors/String), every step returns within the watchdog, the lock-step reference decoder confirms every successful dereference lies inside its segment, returned Text/Data slices alias a supplied segment by address. Consumers whose per-element cost is high run when the budget is <=1MiB or the walk was small. Non-trivial: >=1 successful dereference and >=1 error in the same case.",
 	Quick: 25000, Thorough: 250000,
 	Gen: genCase,
 	Run: run,
